@@ -1231,6 +1231,23 @@ _router_entry("C10",
     "case = (history, request); non-trivial = dispatched (to a static or shadowing dynamic route)")
 PROPS["C09"]["props_modules"] = ["Flamego.Props.C09", "Flamego.Props.C09Values"]
 PROPS["C09"]["code_modules"] = ["Flamego.Props.C09Code"]
+for _pid in ("C07", "C10"):
+    PROPS[_pid]["code_modules"] = ["Flamego.Props.C10Code"]
+    PROPS[_pid]["technique"] = PROPS[_pid]["technique"] + "; code-level tie for the dispatcher router.ServeHTTP: its body is translated to Lean on every run and proved to make exactly the one call the model's Router.serve decides"
+    PROPS[_pid]["level_text"] = PROPS[_pid]["level_text"] + (
+        " CODE-LEVEL TIE: /verif/translator regenerates Gen/RouterCode.lean from router.go on every run (the router struct and the body of "
+        "ServeHTTP; leaves and trees stand for the model's, Tree.Match is a parameter, the handler called is recorded) and Props/C10Code "
+        "proves serve_refines (for every router whose tables hold what the model router's hold, the body makes exactly one call: of the "
+        "handler of the leaf Router.serve chooses with the parameters it delivers, or of the not-found handler exactly when the model "
+        "says so), code_one_chain, code_shortcut_unobservable (for every history of registrations: what the body does is what full tree "
+        "matching alone decides) and agrees_of (the agreement holds for the tables built from the model router in the Go struct's "
+        "shape). When the source leaves the translated subset or a proof no longer checks, the evidence says so and the "
+        "correspondence, run at thorough depth, decides.")
+    PROPS[_pid]["trusted_base"] = PROPS[_pid]["trusted_base"] + [
+        "code-level tie: the Go→Lean translator of method bodies (translator/gocode.go, routercode.go), Code/GoSem.lean, "
+        "Code/LibRoute.lean (a route.Leaf / route.Tree stands for the model's leaf / tree; `world` is a field added to record which "
+        "function value the dispatcher called)"]
+
 PROPS["C04"]["code_modules"] = ["Flamego.Props.C04Code"]
 PROPS["C04"]["technique"] = PROPS["C04"]["technique"] + "; code-level tie for injector.Value / Set / SetParent: the bodies are translated to Lean on every run and proved to return an element of the model's set of admissible answers along every chain of scopes"
 PROPS["C04"]["level_text"] = PROPS["C04"]["level_text"] + (
